@@ -37,6 +37,8 @@ CHECKS = {
          'bounded exhaustive differential enumeration of (grammar, options, implementation, operation, input)'),
  'C12': ('fault_enumeration', '4 C12', 'On real cache files: every truncation offset and every single-bit flip (quick: 2 masks, thorough: all 8) of the valid file for several (grammar, options) pairs, each followed by Lark(g, cache=path) under a CPU watchdog and an address-space limit: the constructor must return, the instance must behave like the uncached build on all inputs up to the bound, and the file must be valid afterwards (next construction loads without calling load_grammar). Plus every history of <= 3 (thorough 4) events build(g_i,o_j) / edit_import / shadow_import / bump lark or Python version / truncate / garbage on one shared path.',
          'exhaustive fault enumeration (all crash points / bit flips of a cache file) + explicit-state search over build histories'),
+ 'C16': ('exploration', '4 C16', 'Part 1: every LALR-acceptable SHAPE grammar x keep_all_tokens x every input up to the bound x generated pure transformers (5 callback variants) x 4 base classes: the embedded result must equal the post-hoc transform of the plain parse. Part 2: every tree with <= 4 (thorough 5) internal nodes over 2 labels, 2 token types and None leaves: the four base classes must return equal results and invoke every callback exactly once, children before parents.',
+         'bounded exhaustive differential enumeration (embedded vs post-hoc; all small trees x 4 traversal classes)'),
 }
 NOT_YET = {}
 def main():
